@@ -11,6 +11,10 @@ from ..core import Report
 from .. import gen, tracer
 from . import runlevel
 
+# case kinds of corpus/ entries (failing inputs of past regressions) that this module replays on every run
+CORPUS_KINDS = ('run',)
+
+
 
 def forced_specs(seed, tier):
     rng = random.Random(f"c09:{seed}")
